@@ -149,6 +149,7 @@ DIRECTED = [
     ("raw-strings-two-byte-futures", "w", "package a:b;\ninterface i { f: func(a: future<string>, b: future<list<u8>>); }\nworld w { import i; }\n", ["raw-strings"]),
     ("keyword-package-names", "w", "package true:for;\ninterface i { f: func(); }\nworld w { import i; export i; }\n", ["default"]),
     ("type-named-none", "w", "package a:b;\ninterface i { flags none { a, b } f: func(x: option<u8>) -> none; }\nworld w { import i; export i; }\n", ["default"]),
+    ("case-named-self", "w", "package a:b;\ninterface i { variant v { self(u8), other } f: func(x: v) -> v; }\nworld w { import i; export i; }\n", ["default"]),
     ("type-named-guest", "w", "package a:b;\ninterface i { flags guest { a, b } f: func(x: guest) -> guest; }\nworld w { export i; }\n", ["default"]),
 ]
 
